@@ -63,7 +63,7 @@ func canonWB(in canonIn) tr.E {
 	evs := []wbEv{}
 	perm := []int{}
 	res := obs.Safe(func() {
-		h := graphOfJ(in.Rep, in.G).InducedSubgraph(pi)
+		h := relabelled(in.Rep, in.G, pi)
 		graph.VerifCanonTracer = func(ev string, a, b int, s, t []int) {
 			if len(evs) < 4000 {
 				evs = append(evs, wbEv{T: ev, A: a, B: b, S: cp(s), U: cp(t)})
@@ -170,7 +170,7 @@ func canonSum(in canonIn) tr.E {
 		var perm []int
 		var code []int
 		r := obs.Safe(func() {
-			h := graphOfJ(rep, in.G).InducedSubgraph(pi)
+			h := relabelled(rep, in.G, pi)
 			if len(in.Classes) > 0 {
 				p, _, _ := graph.CanonicalIsomorphFull(h, mapClasses(in.Classes, pi))
 				perm = cp(p)
@@ -291,7 +291,7 @@ func canonFull(in canonIn) tr.E {
 	}
 	var f fullRes
 	res := obs.Safe(func() {
-		h := graphOfJ(in.Rep, in.G).InducedSubgraph(pi)
+		h := relabelled(in.Rep, in.G, pi)
 		f = packFull(graph.CanonicalIsomorphFull(h, cls))
 	})
 	if f.Perm == nil {
@@ -617,6 +617,33 @@ func canonGrid(c *Ctx, prop string) []canonIn {
 			gj := c6[r.Intn(len(c6))]
 			add(canonIn{Kind: "full", Name: "classes6", G: gj, Classes: cls, Pi: r.Perm(6), Rep: "sparse"})
 			add(canonIn{Kind: "sum", Name: "classes6", G: gj, Classes: cls, Samples: 30, Seed: int64(i)})
+		}
+	}
+	// vertex classes on the hard graphs (10..30 vertices): relabellings (which also permute the listing of every class) must give one
+	// canonical object; classes cut across the orbits, so the class-aware parts of the search meet cells with several kinds of orbit
+	{
+		hard := hardGraphs()
+		names := []string{"petersen", "cube4", "3xk3", "c3+c4+c5+c5", "co-c3+c4+c5+c5", "rook44", "co-c12"}
+		if big {
+			names = append(names, "cube3", "2xpetersen", "c7+c8+c9", "co-c5+c6+c7+c8", "k44", "snark5")
+		}
+		for _, nm := range names {
+			g := hard[nm]
+			for t := 0; t < 2; t++ {
+				k := 2 + t%2
+				cls := make([][]int, k)
+				for v := 0; v < g.N; v++ {
+					c := r.Intn(k)
+					cls[c] = append(cls[c], v)
+				}
+				var cs [][]int
+				for _, c := range cls {
+					if len(c) > 0 {
+						cs = append(cs, c)
+					}
+				}
+				add(canonIn{Kind: "sum", Name: "classes-" + nm, G: g, Classes: cs, Samples: 30, Seed: int64(t)})
+			}
 		}
 	}
 	add(canonIn{Kind: "full", Name: "c6-classes", G: gJOf(graph.Cycle(6)), Classes: [][]int{{0}, {1, 2, 3, 4, 5}}, Rep: "dense"})
